@@ -127,6 +127,7 @@ func (e *Enc) mapRemove(c *ssa.CallCommon, args []Val) bool {
 		return false
 	}
 	e.bumpMapVersion(m.Id)
+	e.setVar("G|loc_mapDeletes", add(e.getVar(e.cur, "G|loc_mapDeletes", SBV64), bv64(1)))
 	_, ok := e.mapRead(e.cur, mt, m.Id, args[1])
 	e.assume(not(ok))
 	return true
